@@ -109,18 +109,18 @@ var c01Envelopes = []string{"ok", "ok", "nullable", "named:" + c01HexS("value"),
 func c01GenLine(r *Rng, mut string) string {
 	seed := func() string { return strconv.FormatUint(r.U64()>>1, 10) }
 	switch k := r.Intn(100); {
-	case k < 30:
+	case k < 26:
 		rows := Pick(r, []int{1, 1, 1, 1, 0, 2, 5})
 		return fmt.Sprintf("wr %s %s %s %s %d %s", mut, c01X2(Pick(r, c01Methods)), c01X2(Pick(r, c01Pvs)), c01GenCols(r, 6), rows, seed())
-	case k < 40:
+	case k < 34:
 		return fmt.Sprintf("wu %s %s x%s", mut, Pick(r, c01Envelopes), hex.EncodeToString(r.Bytes(Pick(r, []int{0, 1, 7, 300}))))
-	case k < 46:
+	case k < 39:
 		return fmt.Sprintf("resp %s err %s", mut, Pick(r, []string{"ok", "empty", "i64", "two"}))
-	case k < 52:
+	case k < 44:
 		return fmt.Sprintf("resp %s unary %d x%s", mut, r.Intn(4), hex.EncodeToString(r.Bytes(r.Intn(12))))
-	case k < 55:
+	case k < 46:
 		return fmt.Sprintf("resp %s void %d", mut, r.Intn(4))
-	case k < 63:
+	case k < 54:
 		// a producer-init-like response: optional header stream, data stream with exactly one stamped batch
 		w := []string{"body", mut, "tok1"}
 		if r.Bool() {
@@ -139,17 +139,17 @@ func c01GenLine(r *Rng, mut string) string {
 			w = append(w, "S", "-", "B", "0", seed(), "-")
 		}
 		return strings.Join(w, " ")
-	case k < 68:
+	case k < 66:
 		lv := func(l string) string { return c01HexS("vgi_rpc.log_level") + "=" + c01HexS(l) }
 		env := c01HexS("result") + ":bin:0"
 		switch r.Intn(3) {
 		case 0:
-			w := []string{"body", mut, "errstream", "S", Pick(r, []string{env, "-"})}
+			w := []string{"body", mut, "errstream", "S", Pick(r, []string{env, env, "-"})}
 			for i, n := 0, r.Intn(3); i < n; i++ {
 				w = append(w, "B", "0", seed(), lv(Pick(r, []string{"INFO", "WARN", "exception"})))
 			}
 			w = append(w, "B", "0", seed(), lv("EXCEPTION"))
-			if r.Bool() {
+			if r.Chance(70) {
 				w = append(w, "B", "1", seed(), "-")
 			}
 			return strings.Join(w, " ")
@@ -169,7 +169,75 @@ func c01GenLine(r *Rng, mut string) string {
 			w = append(w, "B", Pick(r, []string{"1", "2"}), seed(), "-")
 			return strings.Join(w, " ")
 		}
-	case k < 94:
+	case k < 74:
+		// protocol-version scan: several batches carrying (possibly empty, duplicated) versions
+		w := []string{"body", mut, "pvscan", "S", c01GenCols(r, 2)}
+		pvk := c01HexS("vgi_rpc.protocol_version")
+		for i, n := 0, r.Range(1, 4); i < n; i++ {
+			var kv []string
+			for j, m := 0, r.Intn(3); j < m; j++ {
+				kv = append(kv, pvk+"="+c01HexS(Pick(r, []string{"", "", "1.2.3", "2.0.0", "x"})))
+			}
+			if r.Chance(30) {
+				kv = append(kv, c01HexS("vgi_rpc.method")+"="+c01HexS("m"), c01HexS("vgi_rpc.request_version")+"="+c01HexS("1"))
+			}
+			md := "-"
+			if len(kv) > 0 {
+				md = strings.Join(kv, ",")
+			}
+			w = append(w, "B", strconv.Itoa(r.Intn(2)), seed(), md)
+		}
+		return strings.Join(w, " ")
+	case k < 82:
+		// request-shaped bodies around the row-count rule and its pointer exemptions
+		var kv []string
+		add := func(k, v string) { kv = append(kv, c01HexS(k)+"="+c01HexS(v)) }
+		add("vgi_rpc.method", Pick(r, []string{"m", "echo", ""}))
+		add("vgi_rpc.request_version", "1")
+		if r.Chance(45) {
+			add("vgi_rpc.location", Pick(r, []string{"http://x/y", ""}))
+		}
+		if r.Chance(45) {
+			add("vgi_rpc.shm_offset", Pick(r, []string{"0", "64", ""}))
+		}
+		if r.Chance(25) {
+			add("vgi_rpc.log_level", Pick(r, []string{"INFO", ""}))
+		}
+		if r.Chance(30) {
+			add("vgi_rpc.request_id", "r1")
+		}
+		cols := c01GenCols(r, 2)
+		if r.Chance(70) && cols == "-" {
+			cols = c01HexS("x") + ":i64:0"
+		}
+		return strings.Join([]string{"body", mut, "reqptr", "S", cols, "B", strconv.Itoa(Pick(r, []int{0, 0, 1, 2, 5})), seed(), strings.Join(kv, ",")}, " ")
+	case k < 88:
+		// several call tokens around one cursor, across streams
+		ck := c01HexS("vgi_rpc.call_state#b64")
+		sk := c01HexS("vgi_rpc.stream_state#b64")
+		w := []string{"body", mut, "calltok"}
+		for s, ns := 0, r.Range(1, 3); s < ns; s++ {
+			w = append(w, "S", Pick(r, []string{"-", c01HexS("x") + ":i64:0"}))
+			for b, nb := 0, r.Range(1, 4); b < nb; b++ {
+				var kv []string
+				if r.Chance(50) {
+					kv = append(kv, ck+"="+c01HexS(Pick(r, []string{"", "c1", "c2", "c3"})))
+				}
+				if r.Chance(30) {
+					kv = append(kv, sk+"="+c01HexS(Pick(r, []string{"", "", "t1", "t2"})))
+				}
+				if r.Chance(20) {
+					kv = append(kv, ck+"="+c01HexS("dup"))
+				}
+				md := "-"
+				if len(kv) > 0 {
+					md = strings.Join(kv, ",")
+				}
+				w = append(w, "B", strconv.Itoa(r.Intn(2)), seed(), md)
+			}
+		}
+		return strings.Join(w, " ")
+	case k < 96:
 		// free-form body: 1..4 concatenated streams with arbitrary metadata
 		w := []string{"body", mut, "free"}
 		ns := r.Range(1, 4)
